@@ -133,7 +133,7 @@ requests.get = fake_get
 import click
 from click.testing import CliRunner
 
-t_import = time.time()
+t_import = time.monotonic()
 if group == "main":
     from ascmhl.cli.ascmhl import mhltool_cli as cli
 elif group == "debug":
@@ -159,16 +159,21 @@ if _slow:
         _o = getattr(_C0, _nm)
         if isinstance(_o, click.Command) and _o.callback is not None:
             _o.callback = _mk(_o.callback)
+# a wall clock that stands still (or is being set back) while the command runs: the grace period of the update check is
+# a DURATION, it must not depend on the wall clock
+if os.environ.get("VERIF_CLOCK") == "stopped":
+    _t0 = time.time()
+    time.time = lambda: _t0
 try:
     r0 = CliRunner(mix_stderr=False)
 except TypeError:
     r0 = CliRunner()
-t = time.time()
+t = time.monotonic()
 if cli is not None:
     r = r0.invoke(cli, args)
 else:
     r = r0.invoke(getattr(C, args[0].replace("-", "_")), args[1:])
-dt = time.time() - t
+dt = time.monotonic() - t
 exc = None
 if r.exception is not None and not isinstance(r.exception, SystemExit):
     exc = type(r.exception).__name__
